@@ -25,6 +25,35 @@ def linearize(nf, atom, pol, int_vars, positive=()):
     if atom[0] == 'op' and atom[1] == 'ovf_sub' and len(atom[2]) == 3 and atom[2][2][0] == 'str' and atom[2][2][1].startswith('u'):
         # an unsigned subtraction of in-range operands overflows exactly when a < b
         atom = T.op('lt', atom[2][0], atom[2][1])
+    if atom[0] == 'op' and atom[1] in ('lt', 'le', 'eq') and len(atom[2]) == 2:
+        # unsigned saturating subtraction against a constant: max(a - b, 0) ? c by the sign of c
+        l, r = atom[2]
+        def const_of(x):
+            x = x[2][0] if (x[0] == 'op' and x[1] in ('i2f', 'f2f', 'i2i') and len(x[2]) == 1) else x
+            return Fraction(x[1]) if x[0] in ('int', 'flt') and not isinstance(x[1], str) else None
+        def ssub_of(x):
+            x = x[2][0] if (x[0] == 'op' and x[1] in ('i2f', 'f2f', 'i2i') and len(x[2]) == 1) else x
+            return x if (x[0] == 'op' and x[1] == 'ssub' and len(x[2]) == 2) else None
+        TRUE_, FALSE_ = T.op('lt', T.mk_int(0), T.mk_int(1)), T.op('lt', T.mk_int(1), T.mk_int(0))
+        rew = None
+        if ssub_of(r) is not None and const_of(l) is not None:          # c ? s
+            c, d = const_of(l), T.op('sub', *ssub_of(r)[2])
+            if atom[1] == 'lt':
+                rew = T.op('lt', l, d) if c >= 0 else TRUE_
+            elif atom[1] == 'le':
+                rew = T.op('le', l, d) if c > 0 else TRUE_
+            else:
+                rew = T.op('eq', l, d) if c > 0 else (T.op('le', d, l) if c == 0 else FALSE_)
+        elif ssub_of(l) is not None and const_of(r) is not None:        # s ? c
+            c, d = const_of(r), T.op('sub', *ssub_of(l)[2])
+            if atom[1] == 'lt':
+                rew = T.op('lt', d, r) if c > 0 else FALSE_
+            elif atom[1] == 'le':
+                rew = T.op('le', d, r) if c >= 0 else FALSE_
+            else:
+                rew = T.op('eq', d, r) if c > 0 else (T.op('le', d, r) if c == 0 else FALSE_)
+        if rew is not None:
+            atom = rew
     if atom[0] != 'op' or atom[1] not in ('lt', 'le', 'eq') or len(atom[2]) != 2:
         raise NotLinear(T.show(atom))
     try:
